@@ -42,10 +42,10 @@ let rec firstn_ml k l = if k <= 0 then [] else match l with [] -> [] | x :: t ->
 
 let handle kind a =
   match kind with
-  | "bamraw" | "bcfraw" ->
+  | "bamraw" | "bcfraw" | "bcfeager" ->
       let bs = bytes_of_hex a.(0) in
       let cuts = parse_cuts a.(1) (hex_len a.(0)) in
-      let f = if kind = "bamraw" then obs_bam else obs_bcf in
+      let f = if kind = "bamraw" then obs_bam else if kind = "bcfraw" then obs_bcf else obs_bcf_eager in
       Some (String.concat " " (List.map (fun k ->
         let (n, s) = f (nat_of_int k) bs in
         string_of_int (int_of_n n) ^ ":" ^ stop_text s) cuts))
@@ -56,13 +56,13 @@ let handle kind a =
         let (ls, s) = obs_bgzf (nat_of_int k) bs in
         (if ls = [] then "_" else String.concat "+" (List.map (fun l -> string_of_int (int_of_n l)) ls))
         ^ ":" ^ stop_text s) cuts))
-  | "bamz" ->
+  | "bamz" | "bcfz" ->
       let bs = bytes_of_hex a.(0) in
       let hdr = nat_of_int (int_of_string a.(1)) in
       let tab = parse_table a.(0) a.(2) in
       let cuts = parse_cuts a.(3) (hex_len a.(0)) in
       Some (String.concat " " (List.map (fun k ->
-        match obs_bamz tab hdr (nat_of_int k) bs with
+        match (if kind = "bamz" then obs_bamz else obs_bcfz) tab hdr (nat_of_int k) bs with
         | None -> "H"
         | Some (n, s) -> string_of_int (int_of_n n) ^ ":" ^ stop_text s) cuts))
   | "bai" ->
@@ -73,6 +73,37 @@ let handle kind a =
         match read_bai (firstn_ml k bs) with
         | None -> "Err"
         | Some i -> "Ok:" ^ canon_bai i) cuts))
+  | "textz" ->
+      let bs = bytes_of_hex a.(1) in
+      let hdr = nat_of_int (int_of_string a.(2)) in
+      let tab = parse_table a.(1) a.(3) in
+      let rejected = if a.(4) = "_" || a.(4) = "" then [] else
+        List.map (fun part -> match split_on ':' part with
+          | [l; c] -> (bytes_of_hex l, n_of_int (int_of_string c))
+          | _ -> failwith "rejected") (split_on ';' a.(4)) in
+      let cuts = parse_cuts a.(5) (hex_len a.(1)) in
+      Some (String.concat " " (List.map (fun k ->
+        match obs_textz tab rejected hdr (nat_of_int k) bs with
+        | None -> "H"
+        | Some (n, s) -> string_of_int (int_of_n n) ^ ":" ^ stop_text s) cuts))
+  | "gzi" ->
+      let bs = bytes_of_hex a.(0) in
+      let cuts = parse_cuts a.(1) (hex_len a.(0)) in
+      Some (String.concat " " (List.map (fun k ->
+        match read_gzi (firstn_ml k bs) with
+        | None -> "Err"
+        | Some l -> "Ok:" ^ String.concat "," (List.map (fun (c, u) -> dec_of_n c ^ "-" ^ dec_of_n u) l)) cuts))
+  | "cramc" ->
+      let bs = bytes_of_hex a.(0) in
+      let tab = if a.(1) = "_" || a.(1) = "" then []
+        else List.init (String.length a.(1)) (fun i -> n_of_int (Char.code a.(1).[i] - 48)) in
+      let cuts = parse_cuts a.(2) (hex_len a.(0)) in
+      Some (String.concat " " (List.map (fun k ->
+        let (h, (cs, s)) = obs_cram32 tab (nat_of_int k) bs in
+        (if h then "H" else "h") ^ ":"
+        ^ (if cs = [] then "_" else String.concat "+" (List.map (fun (l, (n, m)) ->
+             dec_of_n l ^ "/" ^ dec_of_n n ^ "/" ^ dec_of_n m) cs))
+        ^ ":" ^ stop_text s) cuts))
   | _ -> None
 
 let () = run_driver handle
